@@ -685,7 +685,7 @@ Definition tick_end (w : world) (bell : nat) (uc : bool) : hres :=
                 end in
   let w := if b_place (w_bot w) =? 0 then make_calls w (b_calls (w_bot w)) else w in
   let w := upd_bot w (fun b => b <| b_place := S (b_place b) |>) in
-  if N_of w <=? b_place (w_bot w) then start_next_row w false else hok w.
+  if Nat.min (length (b_row (w_bot w))) (N_of w) <=? b_place (w_bot w) then start_next_row w false else hok w.
 
 (* Bot.tick() *)
 Definition tick (fuel : nat) (w : world) : hres :=
